@@ -72,9 +72,13 @@ def eval_call(interp, node, env):
             c, a, b = [interp.eval(x, env) for x in node.args]
             return ops.ite(ops.truth(interp, c), a, b)
         if name == "old":
-            if interp.old_env is None:
-                raise OutOfSubset("old() outside a postcondition")
             oe = interp.old_env
+            if oe is None:
+                # in a loop invariant / assertion of the function under verification: the entry state
+                fr_ = interp.frame
+                oe = getattr(fr_, "entry_env", None) if (fr_ is not None and fr_.verifying) else None
+            if oe is None:
+                raise OutOfSubset("old() outside a postcondition")
             saved, interp.old_env = interp.old_env, None
             try:
                 return interp.eval(node.args[0], oe)
